@@ -6,6 +6,7 @@ package c10
 
 import (
 	"fmt"
+	"io"
 	"sort"
 	"testing"
 	"time"
@@ -13,37 +14,55 @@ import (
 	"lunar/engine/utils/queue"
 	"lunar/toolkit-core/logging"
 
+	"github.com/rs/zerolog"
 	"pgregory.net/rapid"
 
+	"verif/harness/internal/engine"
 	"verif/harness/internal/ev"
 	"verif/harness/internal/vclock"
 )
 
-type backlogCase struct {
+type backlogCase_ struct {
 	Quota   int    `json:"quota"`
 	First   int    `json:"first_batch"`
 	Second  int    `json:"second_batch"`
 	Prios   []int  `json:"priorities"` // per arrival (both batches)
 	Short   []bool `json:"short_ttl"`  // per arrival: 2.5 s instead of 1 h
 	Windows int    `json:"windows_observed"`
+	// LogLevel: the level of the logger handed to the queue ("" = the zero-value logger, logging switched off);
+	// Reads: the requests_in_queue gauge is read (Counts) before every roll-over
+	LogLevel string `json:"log_level,omitempty"`
+	Reads    bool   `json:"metrics_read_before_each_rollover,omitempty"`
 }
 
 func TestLargeBacklogOrder(t *testing.T) {
 	r := ev.New(t, "C10")
 	rapid.Check(t, func(t *rapid.T) {
-		c := backlogCase{Quota: rapid.IntRange(1, 3).Draw(t, "quota"),
-			First:   rapid.SampledFrom([]int{20, 120, 130, 200, 260}).Draw(t, "first"),
-			Second:  rapid.SampledFrom([]int{0, 10, 70, 130}).Draw(t, "second"),
-			Windows: rapid.IntRange(3, 12).Draw(t, "windows")}
+		c := backlogCase_{Quota: rapid.IntRange(1, 3).Draw(t, "quota"),
+			First:    rapid.SampledFrom([]int{20, 120, 130, 200, 260}).Draw(t, "first"),
+			Second:   rapid.SampledFrom([]int{0, 10, 70, 130}).Draw(t, "second"),
+			Windows:  rapid.IntRange(3, 12).Draw(t, "windows"),
+			LogLevel: rapid.SampledFrom([]string{"", "", "debug", "trace", "trace"}).Draw(t, "log-level"),
+			Reads:    rapid.Bool().Draw(t, "metrics-reads")}
 		n := c.First + c.Second
 		pr := rapid.SliceOfN(rapid.IntRange(1, 5), n, n).Draw(t, "prios")
 		sh := rapid.SliceOfN(rapid.Bool(), n, n).Draw(t, "short")
 		c.Prios, c.Short = pr, sh
 		r.Case()
+		engine.WithLogLevel(c.LogLevel, func() { backlogCase(t, r, c, n) })
+	})
+}
+
+func backlogCase(t *rapid.T, r *ev.Recorder, c backlogCase_, n int) {
+	{
 		const windowS = 10
 		clk := vclock.New(time.Unix(baseSec, 0).Add(100 * time.Millisecond))
 		clk.SettleTimeout = guard
-		q := queue.NewInMemoryDelayedPriorityQueue(queue.QueueKey{RemedyName: "backlog", Strategy: queue.Strategy{WindowQuota: int64(c.Quota), WindowSize: windowS * time.Second}}, clk, logging.ContextLogger{})
+		logger := logging.ContextLogger{}
+		if c.LogLevel != "" {
+			logger = logging.ContextLogger{Logger: zerolog.New(io.Discard)}
+		}
+		q := queue.NewInMemoryDelayedPriorityQueue(queue.QueueKey{RemedyName: "backlog", Strategy: queue.Strategy{WindowQuota: int64(c.Quota), WindowSize: windowS * time.Second}}, clk, logger)
 		if err := clk.WaitRegistrations(procOwner, 1); err != nil {
 			fmt.Println("VERIF-INFRA:", err)
 			t.Fatalf("infrastructure")
@@ -158,6 +177,9 @@ func TestLargeBacklogOrder(t *testing.T) {
 			// take notice (virtual seconds pass in real microseconds: an expired waiter must not still be on its
 			// way out when the window processor runs)
 			clk.Advance(next.Sub(clk.Now()) - time.Millisecond)
+			if c.Reads {
+				_ = q.Counts()
+			}
 			if rel := collect(0); len(rel) > 0 {
 				fail("window %d: %d waiters were released before the roll-over", wdw, len(rel))
 			}
@@ -210,7 +232,7 @@ func TestLargeBacklogOrder(t *testing.T) {
 				clk.Advance(windowS * time.Second)
 			}
 		}
-	})
+	}
 }
 
 type blWaiter struct {
